@@ -212,6 +212,15 @@ func checkAlwaysSigned(r *Report, p *Prog) {
 		{"MakeArtifactResolveRequest", "ArtifactResolve", "SignArtifactResolve", ""},
 	} {
 		fn := p.MustFunc("saml", "ServiceProvider", ct.name)
+		// a constructor that only dispatches on its binding argument to one unexported constructor per binding: the rule is
+		// read from the one that serves the binding that carries an enveloped signature (all of them when the rule does
+		// not depend on the binding)
+		if len(callsToNamed(fn, ct.signFn)) == 0 {
+			if h := dispatchedCtor(p, fn, ct.signFn, ct.extra == "post"); h != nil {
+				fn = h
+				ct.extra = ""
+			}
+		}
 		a := NewAnalysis(p)
 		B := a.B
 		fc := a.Ctx(fn)
@@ -864,4 +873,63 @@ func storesThrough(p *Prog, fn *ssa.Function, prm *ssa.Parameter, depth int) boo
 		}
 	}
 	return false
+}
+
+// callsToNamed: the static calls in fn of a function of the given name.
+func callsToNamed(fn *ssa.Function, name string) []*ssa.Call {
+	var out []*ssa.Call
+	for _, b := range fn.Blocks {
+		for _, in := range b.Instrs {
+			if c, ok := in.(*ssa.Call); ok && c.Call.StaticCallee() != nil && c.Call.StaticCallee().Name() == name {
+				out = append(out, c)
+			}
+		}
+	}
+	return out
+}
+
+// dispatchedCtor: fn forwards the results of unexported constructors of the same result type, chosen by a comparison of
+// its binding argument; the one that calls signFn and is reached (when post is set) only under binding == HTTP-POST, the
+// others being reached only when that comparison fails. nil when fn is not of that form.
+func dispatchedCtor(p *Prog, fn *ssa.Function, signFn string, post bool) *ssa.Function {
+	a := NewAnalysis(p)
+	B := a.B
+	fc := a.Ctx(fn)
+	fc.ensureConds()
+	var found *ssa.Function
+	for _, ret := range fc.Returns() {
+		for _, leaf := range phiLeaves(Resolve(ret.Results[0]), 0) {
+			ex, ok := leaf.(*ssa.Extract)
+			if !ok {
+				continue
+			}
+			c, ok := ex.Tuple.(*ssa.Call)
+			if !ok {
+				continue
+			}
+			h := c.Call.StaticCallee()
+			if h == nil || !p.InLibrary(h) || !sameSig(h, fn) || (h.Object() != nil && h.Object().Exported()) {
+				continue
+			}
+			signs := len(callsToNamed(h, signFn)) > 0
+			isPost := false
+			for _, nm := range B.Support(fc.Cond(c.Block())) {
+				if ai := a.Atoms[nm]; ai != nil && ai.Kind == "eq" && strings.Contains(nm, "HTTP-POST") && fc.Implied(c.Block(), B.Var(nm)) {
+					isPost = true
+				}
+			}
+			switch {
+			case signs && (isPost || !post):
+				if found != nil && found != h {
+					return nil
+				}
+				found = h
+			case !signs && post && !isPost:
+				// another binding: no enveloped signature to make
+			default:
+				return nil
+			}
+		}
+	}
+	return found
 }
